@@ -45,7 +45,7 @@ class StateActiveDecorator(TriggerHandlerDecorator, ExpressionDecorator):
         """Handle dispatch events."""
         new_vars = data.trigger_context.get("new_vars", {})
         active_vars = State.notify_var_get(self.var_names, new_vars)
-        return await self.check_expression_vars(active_vars)
+        return bool(await self.check_expression_vars(active_vars))
 
 
 def _validate_state_trigger_args(args: list[Any]) -> list[str]:
